@@ -24,7 +24,7 @@ const ELEMS: [&str; 17] = [
 	"18446744073709551616",
 	"1e400",
 ];
-const WS: [&str; 3] = ["", " ", "\t\n"];
+const WS: [&str; 4] = ["", " ", "\t\n", "\r\n"];
 
 #[derive(Clone, Copy, Debug, PartialEq)]
 enum Op {
@@ -222,7 +222,7 @@ pub fn check(rep: &Reporter) {
 	let max_len = 3;
 	let max_script = if thorough { 4 } else { 3 };
 	rep.set_rule(&format!(
-		"params texts = arrays of 0..{max_len} elements out of {} element texts (numbers incl. out-of-range, strings containing brackets/commas/escapes, nested and blank containers) with whitespace from {{none, space, tab-newline}} at every token gap (all combinations for ≤2 elements; for 3 elements all combinations with at most {} non-empty gaps), plus objects/scalars/absent; read scripts = all sequences of length 1..{max_script} over {{next<Value>, next<u64>, next<String>, optional_next<Value>, optional_next<u64>}}; every (text, script) pair is judged against serde_json's parse of the element texts; distinct = (text, script), all non-trivial.",
+		"params texts = arrays of 0..{max_len} elements out of {} element texts (numbers incl. out-of-range, strings containing brackets/commas/escapes, nested and blank containers) with whitespace from {{none, space, tab-newline, CR-LF}} at every token gap (all combinations for ≤1 element; for 2 elements at most 3 (thorough 4) non-empty gaps; for 3 elements at most {} non-empty gaps), plus objects/scalars/absent; read scripts = all sequences of length 1..{max_script} over {{next<Value>, next<u64>, next<String>, optional_next<Value>, optional_next<u64>}}; every (text, script) pair is judged against serde_json's parse of the element texts; distinct = (text, script), all non-trivial.",
 		ELEMS.len(),
 		if thorough { 3 } else { 1 }
 	));
@@ -240,15 +240,19 @@ pub fn check(rep: &Reporter) {
 				x /= ELEMS.len();
 			}
 			let g = n_gaps(n);
-			let ng = 3usize.pow(g as u32);
+			let ng = WS.len().pow(g as u32);
 			for gi in 0..ng {
 				let mut gaps = Vec::new();
 				let mut x = gi;
 				for _ in 0..g {
-					gaps.push(x % 3);
-					x /= 3;
+					gaps.push(x % WS.len());
+					x /= WS.len();
 				}
-				if n == 3 && gaps.iter().filter(|k| **k != 0).count() > if thorough { 3 } else { 1 } {
+				let nonempty = gaps.iter().filter(|k| **k != 0).count();
+				if n == 3 && nonempty > if thorough { 3 } else { 1 } {
+					continue;
+				}
+				if n == 2 && nonempty > if thorough { 4 } else { 3 } {
 					continue;
 				}
 				let text = build_text(&e, &gaps);
